@@ -88,7 +88,25 @@ def fam_pipelines(seed, big):
                 sc["config_after"] = m
                 out.append(sc)
                 i += 1
-    # streaming stages (a generator and cat-like copiers that exert back-pressure), also with a last command that
+    # pipeline | pipeline with the input (and the error sink) configured on the left one and the output on the right one;
+    # and pipelines used as templates: what runs is a clone of the configured pipeline
+    for n in (4, 5):
+        for term, stdin, stdout, stderr in (("capture", "data", "pipe", "capture"), ("join", "file", "file", "file"),
+                                            ("popen", "pipe", "pipe", "file"), ("stream_stdout", "file", "pipe", "inherit"),
+                                            ("join", "null", "file", "inherit"), ("stream_stdin", "pipe", "file", "file")):
+            sc = pl(i, n, "left", stdin, stdout, stderr, term, rng.choice([1, 7, 300]), rng=rng)
+            sc["split_config"] = True
+            out.append(sc)
+            i += 1
+    for n in (2, 3):
+        for shape in ("left", "iter"):
+            for term, stdin, stdout, stderr in (("capture", "data", "pipe", "capture"), ("join", "file", "file", "file"),
+                                                ("popen", "pipe", "pipe", "file"), ("stream_stdout", "file", "pipe", "file"),
+                                                ("join", "null", "file", "file"), ("stream_stdin", "pipe", "file", "file")):
+                sc = pl(i, n, shape, stdin, stdout, stderr, term, rng.choice([1, 7, 300]), rng=rng)
+                sc["clone_run"] = True
+                out.append(sc)
+                i += 1
     # exits at once: everything upstream must then be released by SIGPIPE and the pipeline must finish
     for n in (2, 3, 4):
         for head in (False, True):
